@@ -177,28 +177,29 @@ def tset(xs): return "{" + ", ".join(('"%s"' % x) if isinstance(x, str) else str
 def generate_corpus(ctx, rng):
     heavy = "FALSE" if ctx.quick else "TRUE"
     jobs = []
-    # twin: (P, Q) pairs as point numbers; -1 = G, -2 = -G, -3 = 2G
-    fixed = [(-1, 0), (-1, -1), (-1, -2), (-1, 118)] if ctx.quick else \
-            [(-1, 0), (-1, -1), (-1, -2), (-1, -3), (-1, 118), (-1, 59), (0, -1), (-2, -3)]
-    nrand = 2 if ctx.quick else 5
-    pq = list(fixed)
-    for _ in range(nrand):
-        pq.append((rng.choice([-1, -1, rng.randrange(1, 200)]), rng.randrange(1, 236)))
-    codes = sorted({(p + 10) * 1000 + (q + 10) for p, q in pq})
+    # twin: (full, P, Q) with P, Q as point numbers; -1 = G, -2 = -G, -3 = 2G.  full = every l, else every 8th + corners
+    rq = lambda: rng.randrange(1, 236)
+    if ctx.quick:
+        pq = [(1, -1, rq()), (0, -1, 0), (0, -1, -1), (0, -1, -2), (0, -1, 118), (0, rq(), rq())]
+    else:
+        pq = [(1, -1, rq()), (1, -1, -1), (1, -1, -2), (1, rq(), rq()), (0, -1, 0), (0, -1, -3), (0, -1, 118), (0, -1, 59),
+              (0, 0, -1), (0, -2, -3), (0, 118, 177), (0, -1, rq()), (0, rq(), rq())]
+    codes = sorted({f * 1000000 + (p + 10) * 1000 + (q + 10) for f, p, q in pq})
     def walk(nm, tag, bases, kfrom, kto, stride, dstride):
         consts = [("CurveNames", tset([nm])), ("Bases", tset(bases)), ("KFrom", kfrom), ("KTo", kto),
                   ("Stride", stride), ("DStride", dstride)]
         jobs.append(("EcGenWalk", tag, gen_cfg(consts, ["Closed", "Cycle", "Ladder", "Special", "DblOk"])))
-    if ctx.quick:       # 16-bit group: the first and the last 3000 scalars; 13-bit group: everything, two bases
-        walk("E16M3", "E16M3.lo", [1], 0, 3000, 8, 32)
-        walk("E16M3", "E16M3.hi", [1], 62100, 0, 8, 32)
-        walk("E13", "E13", [1, rng.randrange(2, 4000)], 0, 0, 4, 32)
+    if ctx.quick:       # 16-bit group: the first and the last 1200 scalars; 13-bit group: everything + part of a 2nd base
+        walk("E13", "E13", [1], 0, 0, 8, 16)
+        walk("E16M3", "E16M3.lo", [1], 0, 1200, 8, 16)
+        walk("E16M3", "E16M3.hi", [1], 63984, 0, 8, 16)
+        walk("E13", "E13.b", [rng.randrange(2, 4000)], 0, 1200, 8, 16)
     else:
         walk("E16M3", "E16M3", [1], 0, 0, 2, 64)
         walk("E16M3", "E16M3.b", [rng.randrange(2, 60000)], 0, 0, 2, 64)
         walk("E13", "E13", [1, rng.randrange(2, 4000), rng.randrange(4000, 8000)], 0, 0, 1, 16)
     for nm in TOY8:
-        jobs.append(("EcGenTwin", nm, gen_cfg([("CurveNames", tset([nm])), ("PQ", tset(codes)), ("Heavy", heavy)],
+        jobs.append(("EcGenTwin", nm, gen_cfg([("CurveNames", tset([nm])), ("PQ", tset(codes)), ("LStride", 8 if ctx.quick else 4), ("Heavy", heavy)],
                                               ["Closed", "Corners", "Diagonal", "AllAgree", "RowSteps"])))
     for nm in TOY8:
         jobs.append(("EcGenPairs", nm, gen_cfg([("CurveNames", tset([nm])), ("Heavy", heavy)],
@@ -316,6 +317,7 @@ def make_corpus(ctx, cases, rng):
                                   op="mulbp", curve=name, cap=cap, P=P, args=ks, exc=True)
                 elif mod == "EcGenTwin":
                     if alias: continue
+                    if not c["row"]: continue                 # sparse pair: this l carries no row
                     P, Q, l = c["P"], c["Q"], c["l"]; ks = list(range(len(c["row"]))); exp = [pt(r) for r in c["row"]]
                     exc = l in (0, 1, cv["n"] - 1, cv["n"]) or not Q
                     for cap in caps():
@@ -349,18 +351,27 @@ def input_class(m, idx):
         return "generic"
     return "generic"
 
+def curve_fail_key(cfg, kind):
+    """ecdsa_curve_from_str fails: the only thing it computes is the base point table of the fixed-point multiplier"""
+    if not cfg["proj"] and cfg["fxp"] == 1: return "pre_dbl_mult:affine:" + kind
+    return "curve_from_str:fxp=%s:%s:%s" % (FXP[cfg["fxp"]], "proj" if cfg["proj"] else "affine", kind)
+
 def fail_key(cfg, m, idx, kind):
+    """WHAT fails: <entry point>:<algorithm that serves it>:<coordinates>:<input class>:<crash|wrong-result>.
+    Failures that come from one component whatever the entry point are keyed by the component."""
     e = eff(cfg); op = m["op"]
     coords = ("proj" + ("+mix" if cfg["mix"] else "")) if cfg["proj"] else "affine"
     uses_unk = op == "mul" or (op == "twinbp" and e["twin_eff"] == 1)
+    uses_fxp = op == "mulbp" or (op == "twinbp" and e["twin_eff"] == 1)
     if uses_unk and e["unk_eff"] in TABLE_ALGOS and e["unkw_eff"] > cfg["fxpw"]:
         return "unknown_pt_mult:table-sized-by-fxp-window:unkpt_win_bits>fxp_win_bits:" + kind
+    if not cfg["proj"] and ((uses_unk and e["unk_eff"] == 1) or (uses_fxp and cfg["fxp"] == 1)):
+        return "pre_dbl_mult:affine:" + kind
     ic = input_class(m, idx)
     if op in ("twinbp", "twin"):
         algo = TWIN[e["twin_eff"]] if op == "twinbp" else TWIN[0 if e["twin_eff"] == 1 else e["twin_eff"]]
         if algo == "JOINT" and ic == "zero-scalar":
             return "twin_mult:JOINT:zero-scalar:" + kind
-        if algo == "FXP_UNKPT": algo += "(%s+%s)" % (FXP[cfg["fxp"]], FXP[e["unk_eff"]])
         return "%s:%s:%s:%s:%s" % ("twin_mult_bp" if op == "twinbp" else "twin_mult", algo, coords, ic, kind)
     if op == "mul": return "unknown_pt_mult:%s:%s:%s:%s" % (FXP[e["unk_eff"]], coords, ic, kind)
     if op == "mulbp": return "mult_bp:%s:%s:%s:%s" % (FXP[cfg["fxp"]], coords, ic, kind)
@@ -456,7 +467,7 @@ def run_rows(cfg, exe, C, sel, fails, stats, per_key):
                                           {"config": cfg_defs(cfg), "line": one_line(m, j), "crash": list(k)}))
                     elif rj != [exp[j]]:
                         g = rj[0] if rj else "?"
-                        key = fail_key(cfg, m, j, ("rc=" + g[3:]) if g.startswith("err") else "wrong-point")
+                        key = fail_key(cfg, m, j, "wrong-result")
                         per_key[key] = per_key.get(key, 0) + 1
                         if per_key[key] <= MAX_PER_KEY:
                             fails.append((key, "config %s\ncase %s\nexpected %s\ngot      %s" % (cfg_name(cfg), one_line(m, j), exp[j], g),
@@ -477,7 +488,7 @@ def run_rows(cfg, exe, C, sel, fails, stats, per_key):
             seen = set()
             for j, (g, x) in enumerate(zip(r, exp)):
                 if g == x: continue
-                kind = ("rc=" + g[3:]) if g.startswith("err") else "wrong-point"
+                kind = "wrong-result"
                 key = fail_key(cfg, m, j, kind)
                 if key in seen: continue
                 seen.add(key)
@@ -495,7 +506,7 @@ def run_build(ctx, cfg, bi, exes, C):
     for exe in exes.values():
         bad = check_curve_tables(exe, C, cfg)
         if bad:
-            fails.append(("curve_from_str:fxp=%s:fails" % FXP[cfg["fxp"]],
+            fails.append((curve_fail_key(cfg, "wrong-result"),
                           "config %s: loading a synthetic curve through ecdsa_curve_from_str failed: %s" % (cfg_name(cfg), str(bad)[:1500]),
                           {"config": cfg_defs(cfg), "info": str(bad)[:3000]}))
             return fails, stats
@@ -521,14 +532,27 @@ def modec_ops(exe, cfg, names, rng, ctx):
     curves = {}
     for n, ln in zip(names, cres):
         if isinstance(ln, dict):
-            fails.append(("curve_from_str:built-in:crash", "%s: %s" % (n, ln["raw"][-800:]), {"config": cfg_defs(cfg), "curve": n})); continue
+            fails.append((curve_fail_key(cfg, "crash"), "%s: %s" % (n, ln["raw"][-800:]), {"config": cfg_defs(cfg), "curve": n})); continue
         f = dict(t.split("=") for t in ln.split()[1:])
         if int(f["rc"]) != 0:
-            fails.append(("curve_from_str:built-in:rc", "%s rc=%s" % (n, f["rc"]), {"config": cfg_defs(cfg), "curve": n})); continue
+            fails.append((curve_fail_key(cfg, "wrong-result"), "ecdsa_curve_from_str(%s) rc=%s" % (n, f["rc"]), {"config": cfg_defs(cfg), "curve": n})); continue
         curves[n] = f
     return curves, fails
 
 def hx(v): return "%x" % v
+
+def hp(sx):
+    if sx == "inf": return []
+    x, y = sx.split(","); return [int(x, 16), int(y, 16)]
+def pseudo_meta(kind, x):
+    """meta record (as for mode B rows) of a mode C call, so that both modes key a failure the same way"""
+    if kind in ("add", "sub"): return {"op": kind, "P": hp(x[3]), "args": [hp(x[4])]}
+    if kind == "dbl": return {"op": "dbl", "P": hp(x[3]), "args": [hp(x[3])]}
+    if kind == "bp": return {"op": "mulbp", "P": hp(x[3]), "args": [x[4]]}
+    if kind == "unk": return {"op": "mul", "P": hp(x[3]), "args": [x[4]]}
+    if kind in ("twinbp", "twin"): return {"op": kind, "P": hp(x[3][0]), "Q": hp(x[4][0]), "l": x[4][1], "args": [x[3][1]]}
+    if kind == "lad": return {"op": "add", "P": hp(x[3]), "args": [hp(x[3])]}
+    raise common.Infra("pseudo_meta " + kind)
 
 def modec(ctx, cfg, exe, names, rng, full_names, nsample):
     """drive the library on built-in curves and assemble the events TLC will decide.
@@ -554,9 +578,11 @@ def modec(ctx, cfg, exe, names, rng, full_names, nsample):
     l2 = []       # (line, curve, kind, a, b)
     for (n, (nn, G, k1)), r in zip(info.items(), r1):
         if isinstance(r, dict):
-            fails.append(("built-in:mult_bp:crash", "config %s curve %s k=%x\n%s" % (cfg_name(cfg), n, k1, r["raw"][-1200:]), {"config": cfg_defs(cfg)})); continue
+            fails.append((fail_key(cfg, {"op": "mulbp", "P": [1, 1], "args": [k1]}, 0, "crash"),
+                          "config %s built-in curve %s k=%x\n%s" % (cfg_name(cfg), n, k1, r["raw"][-1200:]), {"config": cfg_defs(cfg)})); continue
         if not r or "," not in r[0]:
-            fails.append(("built-in:mult_bp:rc", "config %s curve %s k=%x -> %s" % (cfg_name(cfg), n, k1, r), {"config": cfg_defs(cfg)})); continue
+            fails.append((fail_key(cfg, {"op": "mulbp", "P": [1, 1], "args": [k1]}, 0, "wrong-result"),
+                          "config %s built-in curve %s k=%x -> %s" % (cfg_name(cfg), n, k1, r), {"config": cfg_defs(cfg)})); continue
         P1 = r[0]
         for a, b in ((P1, G), (G, P1), (P1, P1), (P1, "inf"), ("inf", P1), ("inf", "inf")):
             l2.append(("add %s D %s %s" % (n, a, b), n, "add", a, b))
@@ -601,11 +627,12 @@ def modec(ctx, cfg, exe, names, rng, full_names, nsample):
         if r is None: continue
         if isinstance(r, dict):
             k = r["crash"]
-            fails.append(("built-in:%s:crash" % OPN.get(kind, "ec_point_" + kind),
-                          "config %s curve %s\n%s\n%s: %s\n%s" % (cfg_name(cfg), n, line[:200], k[0], k[1], r["raw"][-1200:]),
+            fails.append((fail_key(cfg, pseudo_meta(kind, x), 0, "crash"),
+                          "config %s built-in curve %s\n%s\n%s: %s\n%s" % (cfg_name(cfg), n, line[:200], k[0], k[1], r["raw"][-1200:]),
                           {"config": cfg_defs(cfg), "line": line[:1500]})); continue
         if not tok_ok(r):
-            fails.append(("built-in:%s:rc" % OPN.get(kind, "ec_point_" + kind), "config %s curve %s: %s -> %s" % (cfg_name(cfg), n, line[:160], r[:2]),
+            fails.append((fail_key(cfg, pseudo_meta(kind, x), 0, "wrong-result"),
+                          "config %s built-in curve %s: %s -> %s" % (cfg_name(cfg), n, line[:160], r[:2]),
                           {"config": cfg_defs(cfg), "line": line[:1500]})); continue
         if kind == "lad": continue
         if kind in ("add", "sub"):
@@ -624,7 +651,7 @@ def modec(ctx, cfg, exe, names, rng, full_names, nsample):
             ev.append({"op": "twin", "ci": cidx[n], "P": pt_limbs(Pa), "k": limbs13(hx(k)), "stepsP": [pt_limbs(t) for t in sp],
                        "chkP": chk_of(n, sp), "Q": pt_limbs(Qa), "l": limbs13(hx(l)), "stepsQ": [pt_limbs(t) for t in sq],
                        "chkQ": chk_of(n, sq), "R": [pt_limbs(r[0])]})
-        evmeta.append((kind, n, line[:300]))
+        evmeta.append((kind, n, line[:300], pseudo_meta(kind, x)))
     stats["events"] = len(ev) - len(curves)
     return fails, ev, evmeta, stats
 
@@ -670,8 +697,12 @@ def validate_events(ctx, cfg, ev, evmeta, d, tag, nsh=4):
             for j, (e, m) in enumerate(shards[si]):
                 v = verd[ncur + 1 + j]; nval += 1
                 if v == "ok": continue
-                key = "built-in:%s:%s" % (OPN.get(m[0], "ec_point_" + m[0]), v)
-                fails.append((key, "config %s curve %s: %s\nTLC verdict: %s" % (cfg_name(cfg), m[1], m[2], v),
+                if v.startswith("ladder-") or v == "operand-not-on-curve":
+                    # a step of the driver's own add/double ladder (or an earlier result used as operand) is wrong
+                    key = fail_key(cfg, {"op": "add", "P": [1, 1], "args": [[2, 2]]}, 0, "wrong-result")
+                else:
+                    key = fail_key(cfg, m[3], 0, "wrong-result")
+                fails.append((key, "config %s built-in curve %s: %s\nTLC verdict: %s" % (cfg_name(cfg), m[1], m[2], v),
                               {"config": cfg_defs(cfg), "curve": m[1], "line": m[2], "event": json.dumps(e)[:6000], "verdict": v}))
     return fails, nval
 
@@ -751,7 +782,7 @@ def run(ctx):
     if len(names) != 32:
         raise common.Infra("expected 32 built-in curves, driver lists %d" % len(names))
     plan = []
-    full0 = set(rng.sample(names, 2)) if ctx.quick else set(names)      # curves whose ladders are certified step by step
+    full0 = set(rng.sample(names[:24], 1)) if ctx.quick else set(names)      # curves whose ladders are certified step by step
     for bi, (c, exes) in enumerate(builds):
         if bi == 0:
             sub, full = names, full0                                    # the suite's configuration: all 32 curves
@@ -763,7 +794,7 @@ def run(ctx):
     def cjob(p):
         c, exe, sub, full = p
         r = random.Random("%s/%s/C" % (ctx.seed, cfg_name(c)))
-        return p, modec(ctx, c, exe, sub, r, full, 4 if ctx.quick else 12)
+        return p, modec(ctx, c, exe, sub, r, full, 3 if ctx.quick else 12)
     with ThreadPoolExecutor(max_workers=4) as ex:
         modec_out = list(ex.map(cjob, plan))
     nval_total = 0; cstats = []
